@@ -175,7 +175,11 @@ def explore_program(case, rng, ntimes, res):
         oc = run_kbest(text, convergence=conv)
         res["evaluations"] += 1
         if oc["kind"] == "ok":
-            judge(oc["results"], exact, "fault-free convergence=%s" % conv)
+            try:
+                judge(oc["results"], exact, "fault-free convergence=%s" % conv)
+            except Bad as b:
+                b.conv = conv
+                raise
             res["probes"]["convergence_runs"] = res["probes"].get("convergence_runs", 0) + 1
     # 2. explanation
     ex = run_kbest(text, explain=True)
@@ -308,15 +312,16 @@ def run_shard(shard):
                 continue
             seen.add(b.sig)
             T = getattr(b, "T", None)
+            conv = getattr(b, "conv", None)
             text = case["text"]
-            if T is None:
+            if T is None and conv is None:
                 try:
                     small = minimise(case, None, b.sig)
                     text = gen.program_text(small)
                 except Exception:
                     pass
             res["violations"].append({"signature": b.sig, "summary": b.why[:300], "match": {"signature": b.sig, "tags": case["tags"]},
-                                      "replay": {"program_text": text, "alarm_T": T, "case_digest": digest((text, T))}})
+                                      "replay": {"program_text": text, "alarm_T": T, "convergence": conv, "case_digest": digest((text, T, conv))}})
     return res
 
 
@@ -328,7 +333,11 @@ def replay(doc):
     exact = {k: float(v) for k, v in sol["probs"].items()}
     T = doc.get("alarm_T")
     try:
-        if T is None:
+        if doc.get("convergence") is not None:
+            oc = run_kbest(text, convergence=doc["convergence"])
+            if oc["kind"] == "ok":
+                judge(oc["results"], exact, "fault-free convergence=%s" % doc["convergence"])
+        elif T is None:
             o = run_kbest(text)
             if o["kind"] != "ok":
                 raise Bad("kbest-%s:%s" % (o["kind"], o.get("cls")), "fault-free k-best run failed: %s" % o.get("msg"))
